@@ -38,7 +38,7 @@ def main():
         libs, _ = build.lib_objects(v, os.path.join(sd, "libs"))
         exe = os.path.join(sd, "copy_hist")
         cf = v.cflags + build.base_cppflags(v) + ["-I" + build.REPO, "-I" + os.path.join(VERIF, "engines", "hist"), "-I" + os.path.join(build.REPO, "lib/sqfs/src/xattr")]
-        build._cc(["clang"] + cf + [os.path.join(VERIF, "engines/hist/copy_hist.c"), "-o", exe] + v.ldflags + [libs["libsquashfs_la"], libs["libutil_a"], libs["libcompat_a"]] +
+        build._cc(["clang"] + cf + [os.path.join(VERIF, "engines/hist/copy_hist.c"), "-o", exe] + v.ldflags + ["-Wl,--wrap=malloc,--wrap=calloc,--wrap=realloc"] + [libs["libsquashfs_la"], libs["libutil_a"], libs["libcompat_a"]] +
                   ["-lz", "-llzma", "-llz4", "-lzstd", "-lpthread"])
         packcheck.TOOLS.update(build.build_tools(v, os.path.join(sd, "bin"), tools=["gensquashfs"]))
         wd = os.path.join(sd, "img")
@@ -136,7 +136,7 @@ def main():
             tot["histories"] += j["histories"]
             tot["ops_executed"] += j["ops_executed"]
             j["kind"] = kind
-            per.append({k: j[k] for k in ("kind", "ops", "histories", "ops_executed", "mismatches")})
+            per.append({k: j[k] for k in ("kind", "ops", "histories", "ops_executed", "failed_copies", "mismatches") if k in j})
             if j["mismatches"]:
                 cr.violation("C19|%s|%s" % (kind, j["first"].split(";")[0]), "object kind %s: %d mismatching histories; first: %s" % (kind, j["mismatches"], j["first"]), files=case, replay_sh=rp)
         for p in per[:3] + per[-3:]:
